@@ -13,6 +13,7 @@ HARNESS_PACKAGES = [
     ("list-driver", {}),
     ("motion-driver", {}),
     ("motion-driver", {"release": True}),
+    ("ssr-driver", {}),
 ]
 
 TB = ("Trusted: Coq 8.16.1 kernel and vm_compute; the hand-written Gallina model is tied to the code only by the "
@@ -93,6 +94,24 @@ CHECKS["C19"] = dict(
           "functions on all of [0,1] is checked on the grid only; the six libm-based easing functions and f64/array lerp are judged by the oracle only."),
     note=TB + "Flocq 4.1 and the Coq Reals with their standard axioms (ClassicalDedekindReals.sig_forall_dec, sig_not_dec, functional_extensionality_dep, Classical_Prop.classic); the platform's f32 arithmetic and LLVM's powi(x,2) are compared, not verified.",
     design="5.C19")
+
+SSRNOTE = TB + "the HTML tokenizer of Ssr/Html.v as the reading of the HTML standard for the emitted subset; html-escape is modelled from its tables and compared on every run; raw-text elements, inner_html, duplicate attribute names, CR/NUL and full-parser tree fix-ups are outside the vocabulary."
+CHECKS["C08"] = dict(
+    category="other",
+    technique="executable Gallina model of the SSR renderer + Gallina HTML tokenizer as parse-back specification + byte-exact differential correspondence; round-trip theorem in progress",
+    text=("Ssr/View.v models the server-side build of the shared view vocabulary (elements incl. void/SVG/custom, static and dynamic text, dynamic views, Show, Keyed/Indexed, components, "
+          "NoHydrate/NoSsr, static/dynamic/None/boolean attributes, hydration keys) and render_recursive; every run compares the model's bytes with render_to_string's bytes on ~2400 (quick) / "
+          "~35000 (thorough) views incl. every string of length <= 2/3 over a metacharacter alphabet in each kind of slot, and applies the Gallina tokenizer of Ssr/Html.v to the REAL output: it must "
+          "tokenize back to the view that was built (python reference token stream). The unbounded theorem tokenize (render t) = tokens t is not proved yet: claimed level `other`."),
+    note=SSRNOTE, design="5.C08")
+CHECKS["C12"] = dict(
+    technique="Coq proofs on the SSR build model (key discipline) and on the runtime model (reinit) + byte-exact differential correspondence over render sequences + oracle",
+    text=("Proved: within one build and one suspense scope the hydration keys appearing in the output are strictly increasing in element-creation order, unique, carry the scope's suspense number "
+          "and lie between the counter before and after (C12_keys_in_creation_order, C12_keys_unique, for every view, state and nesting); Root::reinit leaves exactly one live node, an empty queue, "
+          "no tracker, no pending batch and restarted ids whatever the previous state (C12_reinit_fresh). History independence of sync renders is what the correspondence establishes: in sequences of "
+          "2-5 renders the real bytes equal the model's bytes (a pure function of state and view) at every position, the same view renders identically after different histories, keys are unique and "
+          "ordered, and the live node count at the start of every render is constant. Blocking / streaming renders are covered by C13's check only."),
+    note=SSRNOTE, design="5.C12")
 
 NOT_YET = {}
 
